@@ -211,6 +211,18 @@ def check(ctx, rep):
     for flag in ("self.localVarsDefined", "self.repeatVariable"):
         rep.add("R18c", f"{flag} is part of the saved scope state", flag in scope_fields, ctx.where(ss) if ss else mod.relpath,
                 "" if flag in scope_fields else f"{flag} is not saved/restored per element: an inner element's locals flag leaks to the outer one", key=f"R18c|saved|{flag}")
+    # ... and of the state saved around a nested template run (structure content that is itself a template, macros)
+    from .c17 import saved_names
+
+    pp, qp = interp.methods.get("pushProgram"), interp.methods.get("popProgram")
+    if pp is not None and qp is not None:
+        sv, rs = saved_names(prog, interp, pp), saved_names(prog, interp, qp) | {n.attr for n in ast.walk(qp.node) if isinstance(n, ast.Attribute)
+                                                                                   and isinstance(n.ctx, ast.Store) and dotted(n.value) == "self"}
+        for flag in ("localVarsDefined", "repeatVariable"):
+            ok = flag in sv and flag in rs
+            rep.add("R18c", f"self.{flag} is saved and restored around a nested template run", ok, ctx.where(pp),
+                    "" if ok else f"self.{flag} is not part of the state pushProgram/popProgram carry over a nested run: the nested template clears it and the "
+                    "enclosing element never pops the locals it pushed (defined variables stay in the caller's context)", key=f"R18c|program|{flag}")
     for C in interps:
         for m in C.methods.values():
             pushes = [n for n in ast.walk(m.node) if isinstance(n, ast.Call) and isinstance(n.func, ast.Attribute) and n.func.attr in ("pushLocals", "addRepeat")
